@@ -5,7 +5,7 @@ tiers) is read here from the macro input.  Fail closed: the reader must consume 
 the rule names rustc sees as `plc_parser::__parse_<name>` functions.
 """
 import os, re
-from vlib.facts import WS
+from vlib import facts as _facts
 
 
 class Tok:
@@ -505,7 +505,7 @@ class Grammar:
 
 
 def load(ctx=None):
-    path = os.path.join(WS, "parser", "src", "parser.rs")
+    path = os.path.join(_facts.WS, "parser", "src", "parser.rs")
     src = open(path).read()
     m = re.search(r"^parser!\s*\{", src, re.M)
     if not m:
